@@ -1,13 +1,15 @@
 #!/bin/bash
-# tools/seed_regress.sh [id...]: apply each stored seeded change to /repo, run the check of its
-# property, expect exit 1 + VIOLATION, undo the change. Prints one line per seed.
+# tools/seed_regress.sh [id...]: apply each stored seeded change to the repository this tree's ./check reads
+# (/repo; a tools/mkws.sh workspace: its own worktree), run the check of its property, expect exit 1 +
+# VIOLATION, undo the change. Prints one line per seed.
 cd "$(dirname "$0")/.."
+REPO=$(python3 -c "import re;print(re.search(r'^REPO = \"([^\"]+)\"', open('check').read(), re.M).group(1))")
 ids=${@:-$(ls seeded)}
 for sid in $ids; do
   prop=$(python3 -c "import json;print(json.load(open('seeded/$sid/meta.json'))['property'])")
-  if ! git -C /repo apply "$PWD/seeded/$sid/patch.diff" 2>/dev/null; then echo "$sid: PATCH DOES NOT APPLY"; continue; fi
+  if ! git -C $REPO apply "$PWD/seeded/$sid/patch.diff" 2>/dev/null; then echo "$sid: PATCH DOES NOT APPLY"; continue; fi
   out=$(./check $prop 2>&1); rc=$?
-  git -C /repo checkout -- .
+  git -C $REPO checkout -- .
   v=$(echo "$out" | grep -c '^VIOLATION')
   nf=$(echo "$out" | grep -c 'no-failing-input-found')
   echo "$sid: property=$prop rc=$rc violations=$v no-failing-input=$nf"
